@@ -1,12 +1,15 @@
 /-
 C09 — summarize conserves totals and keeps exactly the shared metadata.
-Only property theorems live here (helper lemmas: `Lemmas/Summarize.lean`).
+Only property theorems live here (helper lemmas: `Lemmas/Summarize.lean`, `Lemmas/SummarizeSpec.lean`,
+`Lemmas/SummarizeMore.lean` — the latter also holds the definition `Summed` and the executable helpers
+`wCell` / `returns` / `refuses` of the concrete witnesses).
 -/
 import Bermuda.Model.Summarize
 import Bermuda.Spec.C09
 import Bermuda.Generated.Summarize
 import Bermuda.Lemmas.Summarize
 import Bermuda.Lemmas.SummarizeSpec
+import Bermuda.Lemmas.SummarizeMore
 namespace Bermuda.Properties.C09
 open Bermuda Bermuda.Spec.C09
 
@@ -36,7 +39,8 @@ theorem additiveFields_eq :
        "incurred_loss_prior", "paid_loss_prior", "reported_loss_prior"] := rfl
 
 /-- ratio fields carry the documented weights; `log_industry_lr` is the exp/log variant weighted by
-`earned_premium` (only the key binding is provable: exp/log are outside the model) -/
+`earned_premium` (key binding here; the SHAPE `log((Σ exp(v)·w)/Σ w)` for arbitrary exp/log is
+`summarize_wavglog_spec` / `summarize_log_industry_lr_spec`; the numeric value of exp/log is outside the model) -/
 theorem ratio_rules_bound :
     ruleOf [] "implied_atu" = some ⟨.wavg, ["implied_atu", "reported_loss"]⟩ ∧
     ruleOf [] "bf_weight" = some ⟨.wavg, ["bf_weight", "reported_loss"]⟩ ∧
@@ -59,17 +63,7 @@ theorem non_loss_metrics_bound :
 
 /-! ### 2. sums: cell level, triangle level, conservation -/
 
-/-- `f` is summed: with `summarize_premium = True`, on incremental triangles (the flag is not passed on),
-or for every field outside NON_LOSS_METRICS -/
-def Summed (prem incr : Bool) (f : String) : Prop :=
-  prem = true ∨ incr = true ∨ f ∉ Generated.Summarize.nonLossMetrics
-
-theorem summed_flag {prem incr : Bool} {f : String} (h : Summed prem incr f) :
-    (if incr then true else prem) = true ∨ f ∉ Generated.Summarize.nonLossMetrics := by
-  rcases h with h | h | h
-  · subst h; cases incr <;> simp
-  · subst h; simp
-  · exact Or.inr h
+/- `Summed prem incr f` (`prem = true ∨ incr = true ∨ f ∉ NON_LOSS_METRICS`): defined in `Lemmas/SummarizeMore.lean` -/
 
 /-- **`summarize_cell_spec`.** One output cell per distinct coordinate (the output coordinates are a
 permutation of the distinct input coordinates, so none is missing and none repeated); every output cell
@@ -153,17 +147,39 @@ theorem summarize_conserves_additive {tr : Transc} {t out : List Cell} {prem : B
   have hb := additive_rules_bound f (by rw [← additiveFields_eq]; exact hf)
   exact (summarize_conserves h (by rw [hb.1]; exact hb.2) hs hin).1
 
+/-- **`summarize_sum_shape`.** Shape and Python kind of a summed field (audit finding 5): index `i` addresses a
+sample of the result IFF it addresses a sample of every input value of the group (so the result has no extra
+and no missing samples: its length is the common length of the input arrays); the result is integral
+(`int` / int64 array) iff every addend is (`None` adds nothing); it is an array iff some addend is one. -/
+theorem summarize_sum_shape {tr : Transc} {extra : List RuleEntry} {t out : List Cell} {prem : Bool}
+    {f : String} (h : summarize tr extra t prem = .ok out)
+    (hr : ruleOf extra (lowerKey f) = some ⟨.sum, [f]⟩) (hs : Summed prem (smIsIncremental t) f) :
+    ∀ o ∈ out,
+      (∀ i, (o.getV f).inRange i = true ↔ ∀ c ∈ groupOf (smIsIncremental t) t o, (c.getV f).inRange i = true) ∧
+      (o.getV f).isIntKind = (groupOf (smIsIncremental t) t o).all (fun c => (c.getV f).isIntKind) ∧
+      (o.getV f).isArr = (groupOf (smIsIncremental t) t o).any (fun c => (c.getV f).isArr) := by
+  intro o ho
+  obtain ⟨hvals, _⟩ := summarize_out_cell h ho
+  have := summarizeCellValues_sum_shape hvals (summed_flag hs) hr
+  have hget : o.getV f = (Dict.get? o.values f).getD .none := rfl
+  rw [hget]
+  refine ⟨fun i => ⟨this.1 i, fun hin => ?_⟩, this.2.1, this.2.2⟩
+  have := (((summarize_cell_spec h).2 o ho).2.2 f i hr hs hin).2
+  rw [hget] at this; exact this
+
 /-! ### 3. `summarize_premium = False` -/
 
 /-- **`no_premium_sum`.** On a cumulative triangle with `summarize_premium = False` loss fields are still the
 sums over all cells of the coordinate (this is `summarize_cell_spec` with `Summed` holding by the third
-alternative), while a premium/exposure field present in the group takes the value of the FIRST cell of the
-group (`None` if that cell lacks it) — it is not multiplied by the number of loss layers. -/
+alternative), while a premium/exposure field present in the group takes the value of the FIRST cell of the group
+THAT HAS ONE (`firstValue`: the first value that is not `None`; `None` only if no cell of the group holds a value) —
+one existing cell's value, not multiplied by the number of loss layers. (Restated for the repair of D28: before, it
+was the first cell's entry, `None` when that cell lacked the field.) -/
 theorem no_premium_sum {tr : Transc} {extra : List RuleEntry} {t out : List Cell}
     (h : summarize tr extra t false = .ok out) (hinc : smIsIncremental t = false) :
     ∀ o ∈ out, ∃ c0 rest, groupOf false t o = c0 :: rest ∧
       ∀ f ∈ Generated.Summarize.nonLossMetrics, (∃ c ∈ groupOf false t o, f ∈ c.values.keys) →
-        Dict.get? o.values f = some (c0.getV f) := by
+        Dict.get? o.values f = some (firstValue ((groupOf false t o).map fun c => c.getV f)) := by
   obtain ⟨md, cells, hmd, hcells, hperm⟩ := summarize_decompose h
   rw [hinc] at hcells
   intro o ho
@@ -197,6 +213,74 @@ theorem no_premium_sum {tr : Transc} {extra : List RuleEntry} {t out : List Cell
     rw [hgc] at hvals
     have := summarizeCellValues_noprem_first hvals hf (mem_valueKeys.mpr hex)
     rw [ho']; exact this
+
+/-- what `no_premium_sum`'s value is, without `firstValue`: EITHER it is not `None` and some cell of the group HOLDS it
+(`values[f] = v`), OR it is `None` and every cell of the group has `None` or nothing there -/
+theorem no_premium_value_existing {tr : Transc} {extra : List RuleEntry} {t out : List Cell}
+    (h : summarize tr extra t false = .ok out) (hinc : smIsIncremental t = false) :
+    ∀ o ∈ out, ∀ f ∈ Generated.Summarize.nonLossMetrics, (∃ c ∈ groupOf false t o, f ∈ c.values.keys) →
+      ∃ v, Dict.get? o.values f = some v ∧
+        ((v ≠ .none ∧ ∃ c ∈ groupOf false t o, Dict.get? c.values f = some v) ∨
+         (v = .none ∧ ∀ c ∈ groupOf false t o, c.getV f = .none)) := by
+  intro o ho f hf hex
+  obtain ⟨c0, rest, _, hval⟩ := no_premium_sum h hinc o ho
+  refine ⟨_, hval f hf hex, ?_⟩
+  rcases firstValue_spec ((groupOf false t o).map fun c => c.getV f) with ⟨h1, h2⟩ | ⟨h1, h2⟩
+  · right
+    exact ⟨h1, fun c hc => h2 _ (List.mem_map.mpr ⟨c, hc, rfl⟩)⟩
+  · left
+    refine ⟨h1, ?_⟩
+    obtain ⟨c, hc, hcv⟩ := List.mem_map.mp h2
+    refine ⟨c, hc, ?_⟩
+    rw [← hcv] at h1 ⊢
+    cases hget : Dict.get? c.values f with
+    | none => exact absurd (by simp [Cell.getV, hget]) h1
+    | some x => simp [Cell.getV, hget]
+
+/-- **`no_premium_first_cell_lacks_field`** (the input of D28, now repaired). When the FIRST cell of a coordinate lacks a
+premium/exposure field and another cell of the coordinate holds a value for it, the output holds A VALUE (not `None`)
+that some cell of the group holds — the premium is no longer lost -/
+theorem no_premium_first_cell_lacks_field {tr : Transc} {extra : List RuleEntry} {t out : List Cell}
+    (h : summarize tr extra t false = .ok out) (hinc : smIsIncremental t = false) :
+    ∀ o ∈ out, ∀ f ∈ Generated.Summarize.nonLossMetrics,
+      (∃ c ∈ groupOf false t o, ∃ x, Dict.get? c.values f = some x ∧ x ≠ .none) →
+        ∃ v, Dict.get? o.values f = some v ∧ v ≠ .none ∧ ∃ c ∈ groupOf false t o, Dict.get? c.values f = some v := by
+  intro o ho f hf ⟨c, hc, x, hx, hxn⟩
+  have hk : f ∈ c.values.keys := Classical.byContradiction fun hk => by
+    rw [Dict.get?_eq_none_of_not_mem_keys hk] at hx
+    cases hx
+  have hex : ∃ c ∈ groupOf false t o, f ∈ c.values.keys := ⟨c, hc, hk⟩
+  obtain ⟨v, hv, hcase⟩ := no_premium_value_existing h hinc o ho f hf hex
+  rcases hcase with ⟨hn, hheld⟩ | ⟨hn, hall⟩
+  · exact ⟨v, hv, hn, hheld⟩
+  · have := hall c hc
+    simp [Cell.getV, hx] at this
+    exact absurd this hxn
+
+/-- the PLAIN reading `Spec.nonLossOkStrict` ("some cell of the group HOLDS the value") — the clause the driver
+evaluates on the implementation since the repair of D28 — is true on the model's output, without any hypothesis -/
+theorem spec_nonLossOkStrict {tr : Transc} {extra : List RuleEntry} {t out : List Cell}
+    (h : summarize tr extra t false = .ok out) (hinc : smIsIncremental t = false) :
+    nonLossOkStrict Generated.Summarize.nonLossMetrics t out = true := by
+  simp only [nonLossOkStrict, List.all_eq_true, hinc]
+  intro o ho f hf
+  cases hany : (groupOf false t o).any (fun c => c.values.contains f) with
+  | false => simp
+  | true =>
+    obtain ⟨c, hc, hcf⟩ := List.any_eq_true.mp hany
+    have hex : ∃ c ∈ groupOf false t o, f ∈ c.values.keys := ⟨c, hc, (Dict.contains_iff _ _).mp hcf⟩
+    obtain ⟨v, hv, hcase⟩ := no_premium_value_existing h hinc o ho f hf hex
+    simp only [Bool.not_true, Bool.false_or]
+    rw [hv]
+    simp only [List.any_eq_true, beq_iff_eq]
+    rcases hcase with ⟨_, c', hc', hheld⟩ | ⟨hn, hall⟩
+    · exact ⟨c', hc', hheld⟩
+    · -- all `None`: the cell that has the key holds an explicit `None`
+      refine ⟨c, hc, ?_⟩
+      obtain ⟨x, hx⟩ := Dict.get?_of_mem_keys ((Dict.contains_iff _ _).mp hcf)
+      have := hall c hc
+      simp only [Cell.getV, hx, Option.getD_some] at this
+      rw [hx, this, hn]
 
 /-! ### 4. the metadata of the result: exactly what every cell shares -/
 
@@ -263,7 +347,8 @@ theorem summarize_cell_values_error_unknown_field {tr : Transc} {extra : List Ru
 
 /-- **`summarize_error_unknown_field`.** A triangle holding a field without an aggregation rule is never
 summarized. (The class is `TriangleError` unless an EARLIER coordinate group already failed with another
-class — groups are processed in order; see `summarize_error_unknown_field_class`.) -/
+class — groups are processed in order; the exact condition is `summarize_error_class_exact`, the class for an
+unknown field in any group `summarize_error_unknown_field_class_any` / `_of_erased`.) -/
 theorem summarize_error_unknown_field {tr : Transc} {extra : List RuleEntry} {t : List Cell}
     {prem : Bool} (h : ∃ c ∈ t, ∃ k ∈ c.values.keys, ruleOf extra (lowerKey k) = none) :
     ∃ e, summarize tr extra t prem = .error e := by
@@ -317,6 +402,98 @@ theorem summarize_error_unknown_field_class {tr : Transc} {extra : List RuleEntr
     unfold summaryCell
     rw [summarizeCellValues_unknown ⟨c, List.mem_filter.mpr ⟨hc, by simp [hkey]⟩, k, hk, hr⟩]
   simp only [smMapE, this]
+
+/-- **`summarize_error_class_exact`.** Once the metadata are consistent, `summarize` raises the class `e` IFF the
+coordinate groups, in first-occurrence order, split into groups that all summarize, then a group whose summary
+cell raises `e`: the FIRST failing group decides the class (and nothing after the groups can fail). -/
+theorem summarize_error_class_exact {tr : Transc} {extra : List RuleEntry} {t : List Cell} {prem : Bool}
+    {md : Metadata} (hmd : metadataGcd t = .ok md) (e : Err) :
+    summarize tr extra t prem = .error e ↔
+      ∃ pre g post, groupsOf (coordKey (smIsIncremental t)) t = pre ++ g :: post ∧
+        (∀ g' ∈ pre, ∃ o, summaryCell tr extra (smIsIncremental t) prem md g' = .ok o) ∧
+        summaryCell tr extra (smIsIncremental t) prem md g = .error e := by
+  unfold summarize
+  rw [hmd]
+  simp only
+  rw [groupBy_eq_groupsOf]
+  constructor
+  · intro h
+    split at h
+    · rename_i e' he'
+      cases h
+      exact smMapE_error_split he'
+    · rename_i cells hcells
+      exfalso
+      have hk : kindsConsistent cells = true := by
+        have hall : ∀ o ∈ cells, o.kind = if smIsIncremental t then CellKind.incremental else CellKind.cumulative := by
+          intro o ho
+          obtain ⟨g, _, hgo⟩ := smMapE_mem hcells ho
+          obtain ⟨vals, _, rfl⟩ := summaryCell_ok hgo
+          rfl
+        unfold kindsConsistent
+        cases hi : smIsIncremental t
+        · have : cells.all (·.kind == .cumulative) = true := by
+            rw [List.all_eq_true]; intro o ho; simp [hall o ho, hi]
+          simp [this]
+        · have : cells.all (·.kind == .incremental) = true := by
+            rw [List.all_eq_true]; intro o ho; simp [hall o ho, hi]
+          simp [this]
+      simp [Triangle.ofCells, hk] at h
+  · rintro ⟨pre, g, post, hsplit, hpre, hg⟩
+    rw [hsplit, smMapE_first_error hpre hg]
+
+/-- **`summarize_error_unknown_field_class_any`.** The class for an unknown field in ANY coordinate group:
+metadata consistent ∧ every group BEFORE a group holding a field without a rule summarizes → `TriangleError`.
+(`summarize_error_unknown_field_class` is the case `pre = []`.) -/
+theorem summarize_error_unknown_field_class_any {tr : Transc} {extra : List RuleEntry} {t : List Cell}
+    {prem : Bool} {md : Metadata} (hmd : metadataGcd t = .ok md)
+    {pre post : List (CoordKey × List Cell)} {g : CoordKey × List Cell}
+    (hsplit : groupsOf (coordKey (smIsIncremental t)) t = pre ++ g :: post)
+    (hpre : ∀ g' ∈ pre, ∃ o, summaryCell tr extra (smIsIncremental t) prem md g' = .ok o)
+    (hunk : ∃ c ∈ g.2, ∃ k ∈ c.values.keys, ruleOf extra (lowerKey k) = none) :
+    summarize tr extra t prem = .error .triangleError := by
+  rw [summarize_error_class_exact hmd]
+  refine ⟨pre, g, post, hsplit, hpre, ?_⟩
+  unfold summaryCell
+  rw [summarizeCellValues_unknown hunk]
+
+/-- **`summarize_error_unknown_field_class_of_erased`.** No reference to groups: if the triangle WITHOUT its
+fields that have no rule is summarized (so nothing else is wrong with it: metadata consistent, no shape / kind /
+missing-weight clash anywhere), then the triangle WITH them is refused with `TriangleError`. -/
+theorem summarize_error_unknown_field_class_of_erased {tr : Transc} {extra : List RuleEntry} {t out : List Cell}
+    {prem : Bool} (h : ∃ c ∈ t, ∃ k ∈ c.values.keys, ruleOf extra (lowerKey k) = none)
+    (hok : summarize tr extra (t.map (eraseUnknown extra)) prem = .ok out) :
+    summarize tr extra t prem = .error .triangleError := by
+  obtain ⟨md, cells, hmd, hcells, _⟩ := summarize_decompose hok
+  rw [metadataGcd_map (e := eraseUnknown extra) (fun _ => rfl)] at hmd
+  rw [smIsIncremental_map (e := eraseUnknown extra) (fun _ => rfl),
+    groupsOf_map _ (eraseUnknown extra) (fun c => by cases hi : smIsIncremental t <;> rfl)] at hcells
+  -- the first group holding an unknown key
+  obtain ⟨c, hc, k, hk, hr⟩ := h
+  have hex : ∃ g ∈ groupsOf (coordKey (smIsIncremental t)) t,
+      ∃ c ∈ g.2, ∃ k ∈ c.values.keys, ruleOf extra (lowerKey k) = none := by
+    refine ⟨(coordKey (smIsIncremental t) c,
+        t.filter fun a => coordKey (smIsIncremental t) a == coordKey (smIsIncremental t) c), ?_, c, ?_, k, hk, hr⟩
+    · unfold groupsOf
+      exact List.mem_map.mpr ⟨_, mem_smDedup.mpr (List.mem_map.mpr ⟨c, hc, rfl⟩), rfl⟩
+    · exact List.mem_filter.mpr ⟨hc, by simp⟩
+  obtain ⟨pre, g, post, hsplit, hg, hpre⟩ := exists_first hex
+  refine summarize_error_unknown_field_class_any hmd hsplit ?_ hg
+  intro g' hg'
+  have hid : g'.2.map (eraseUnknown extra) = g'.2 := by
+    have : ∀ c ∈ g'.2, eraseUnknown extra c = c := by
+      intro c hc
+      apply eraseUnknown_id
+      intro k hk hr
+      exact hpre g' hg' ⟨c, hc, k, hk, hr⟩
+    rw [List.map_congr_left this, List.map_id']
+  have hmem : (g'.1, g'.2.map (eraseUnknown extra)) ∈
+      (groupsOf (coordKey (smIsIncremental t)) t).map fun g => (g.1, g.2.map (eraseUnknown extra)) :=
+    List.mem_map.mpr ⟨g', by rw [hsplit]; simp [hg'], rfl⟩
+  obtain ⟨o, _, ho⟩ := smMapE_mem' hcells hmem
+  rw [hid] at ho
+  exact ⟨o, ho⟩
+
 
 /-! ### 6. the executable Spec predicates hold on the model's output (bridge) -/
 
@@ -374,16 +551,17 @@ theorem spec_nonLossOk {tr : Transc} {extra : List RuleEntry} {t out : List Cell
     nonLossOk Generated.Summarize.nonLossMetrics t out = true := by
   simp only [nonLossOk, List.all_eq_true, hinc]
   intro o ho f hf
-  obtain ⟨c0, rest, hg, hfirst⟩ := no_premium_sum h hinc o ho
   cases hany : (groupOf false t o).any (fun c => c.values.contains f) with
   | false => simp
   | true =>
     obtain ⟨c, hc, hcf⟩ := List.any_eq_true.mp hany
-    have := hfirst f hf ⟨c, hc, (Dict.contains_iff _ _).mp hcf⟩
+    obtain ⟨v, hv, hcase⟩ := no_premium_value_existing h hinc o ho f hf ⟨c, hc, (Dict.contains_iff _ _).mp hcf⟩
     simp only [Bool.not_true, Bool.false_or]
-    rw [this]
+    rw [hv]
     simp only [List.any_eq_true, beq_iff_eq]
-    exact ⟨c0, by rw [hg]; simp, rfl⟩
+    rcases hcase with ⟨_, c', hc', hheld⟩ | ⟨hn, hall⟩
+    · exact ⟨c', hc', by simp [Cell.getV, hheld]⟩
+    · exact ⟨c, hc, by rw [hall c hc, hn]⟩
 
 
 /-! ### 7. ratio fields -/
@@ -392,8 +570,9 @@ theorem spec_nonLossOk {tr : Transc} {extra : List RuleEntry} {t out : List Cell
 field whose rule is the `w`-weighted average of itself — by `ratio_rules_bound`: `implied_atu`, `bf_weight`,
 `geometric_weight` with `w = reported_loss` — satisfies, in the output cell `o` and sample by sample,
 `o[f] × Σ w = Σ value × w` over the input cells at `o`'s coordinate, the denominator being the (non-zero) sum of
-the weights of ALL those cells. (`log_industry_lr`: the same shape around `np.exp`/`np.log`, which are outside the
-model; its value is compared in Python with a tolerance.) -/
+the weights of ALL those cells — also of cells WITHOUT a value of `f`, which count 0 in the numerator
+(`ratio_denominator_counts_valueless_weights` shows the difference from the average over the cells that have a
+value). (`log_industry_lr`: `summarize_wavglog_spec`.) -/
 theorem summarize_ratio_spec {tr : Transc} {extra : List RuleEntry} {t out : List Cell} {prem : Bool}
     {f w : String} {i : Nat}
     (h : summarize tr extra t prem = .ok out) (hp : prem = true ∨ smIsIncremental t = true)
@@ -423,6 +602,56 @@ theorem summarize_ratio_spec {tr : Transc} {extra : List RuleEntry} {t out : Lis
   have hget : o.getV f = v := by rw [ho']; simp [Cell.getV, hd]
   rw [hget]
   exact ⟨h1, h2⟩
+
+/-! ### 7a. `log_industry_lr`: log of the weighted average of exp -/
+
+/-- **`summarize_wavglog_spec`.** The SHAPE of the `log_industry_lr` rule for arbitrary `np.exp` / `np.log`
+(`tr : Transc`): a field whose rule is the exp/log variant weighted by `w` comes out, sample by sample, as
+`tr.log ((Σ tr.exp(value_c) · w_c) / Σ w_c)` over the cells of the coordinate, with a non-zero denominator, in
+range; and the rule only succeeds when EVERY cell of the group holds a value (`np.exp` of a list with a `None`
+is a `TypeError`), so here numerator and denominator run over the same cells. The field is outside
+NON_LOSS_METRICS, so this also holds with `summarize_premium = False`. -/
+theorem summarize_wavglog_spec {tr : Transc} {extra : List RuleEntry} {t out : List Cell} {prem : Bool}
+    {f w : String} {i : Nat}
+    (h : summarize tr extra t prem = .ok out) (hs : Summed prem (smIsIncremental t) f)
+    (hr : ruleOf extra (lowerKey f) = some ⟨.wavglog, [f, w]⟩) :
+    ∀ o ∈ out, (∃ c ∈ groupOf (smIsIncremental t) t o, f ∈ c.values.keys) →
+      (∀ c ∈ groupOf (smIsIncremental t) t o,
+        (c.getV f).inRange i = true ∧ (c.getV w).inRange i = true) →
+      (o.getV f).at i = tr.log
+        (((groupOf (smIsIncremental t) t o).map fun c => tr.exp ((c.getV f).at i) * (c.getV w).at i).sum /
+          sumAt (groupOf (smIsIncremental t) t o) w i) ∧
+      sumAt (groupOf (smIsIncremental t) t o) w i ≠ 0 ∧ (o.getV f).inRange i = true ∧
+      ∀ c ∈ groupOf (smIsIncremental t) t o, (c.getV f).isNone = false := by
+  intro o ho hex hin
+  obtain ⟨hvals, _⟩ := summarize_out_cell h ho
+  obtain ⟨v, hd, h1, h2, h3, h4⟩ :=
+    summarizeCellValues_wavglog_at (i := i) hvals (summed_flag hs) hr (mem_valueKeys.mpr hex) hin
+  have hget : o.getV f = v := by simp [Cell.getV, hd]
+  rw [hget]
+  exact ⟨h1, h2, h3, h4⟩
+
+/-- `log_industry_lr` is lower-case and always goes through its rule (it is not in NON_LOSS_METRICS) -/
+theorem log_industry_lr_summed (prem incr : Bool) :
+    lowerKey "log_industry_lr" = "log_industry_lr" ∧ Summed prem incr "log_industry_lr" := by
+  refine ⟨by decide +kernel, Or.inr (Or.inr ?_)⟩
+  decide +kernel
+
+/-- the default table: `log_industry_lr` weighted by `earned_premium` (`ratio_rules_bound`), any `summarize_premium` -/
+theorem summarize_log_industry_lr_spec {tr : Transc} {t out : List Cell} {prem : Bool} {i : Nat}
+    (h : summarize tr [] t prem = .ok out) :
+    ∀ o ∈ out, (∃ c ∈ groupOf (smIsIncremental t) t o, "log_industry_lr" ∈ c.values.keys) →
+      (∀ c ∈ groupOf (smIsIncremental t) t o,
+        (c.getV "log_industry_lr").inRange i = true ∧ (c.getV "earned_premium").inRange i = true) →
+      (o.getV "log_industry_lr").at i = tr.log
+        (((groupOf (smIsIncremental t) t o).map fun c =>
+            tr.exp ((c.getV "log_industry_lr").at i) * (c.getV "earned_premium").at i).sum /
+          sumAt (groupOf (smIsIncremental t) t o) "earned_premium" i) ∧
+      sumAt (groupOf (smIsIncremental t) t o) "earned_premium" i ≠ 0 := by
+  intro o ho hex hin
+  have hl := log_industry_lr_summed prem (smIsIncremental t)
+  have := summarize_wavglog_spec (i := i) h hl.2 (by rw [hl.1]; exact ratio_rules_bound.2.2.2) o ho hex hin
+  exact ⟨this.1, this.2.1⟩
 
 /-! ### 7b. the remaining Spec bridges -/
 
@@ -495,6 +724,35 @@ theorem spec_ratioOk {tr : Transc} {t out : List Cell} {prem : Bool} {tol : Rat}
         exact closeTo_self h0
 
 
+/-- the loss fields of the Spec (what the driver passes with `summarize_premium = False` on a cumulative triangle)
+are additive fields outside NON_LOSS_METRICS -/
+theorem lossFields_summed : ∀ f ∈ lossFields, f ∈ additiveFields ∧ f ∉ Generated.Summarize.nonLossMetrics := by
+  decide +kernel
+
+theorem lossFields_Summed {prem incr : Bool} : ∀ f ∈ lossFields, f ∈ additiveFields ∧ Summed prem incr f :=
+  fun f hf => ⟨(lossFields_summed f hf).1, Or.inr (Or.inr (lossFields_summed f hf).2)⟩
+
+/-- `Spec.conserves` and `Spec.cellSums` hold on the model's output for exactly the field list `Drv/C09.lean`
+passes (`additiveFields` when everything is summed, else `lossFields`) -/
+theorem spec_driver_fields {tr : Transc} {t out : List Cell} {prem : Bool}
+    (h : summarize tr [] t prem = .ok out) :
+    conserves (if prem || smIsIncremental t then additiveFields else lossFields) t out = true ∧
+    cellSums (if prem || smIsIncremental t then additiveFields else lossFields) t out = true := by
+  have hf : ∀ f ∈ (if prem || smIsIncremental t then additiveFields else lossFields),
+      f ∈ additiveFields ∧ Summed prem (smIsIncremental t) f := by
+    intro f hf
+    cases hp : (prem || smIsIncremental t) with
+    | true =>
+      rw [hp] at hf
+      refine ⟨hf, ?_⟩
+      rcases Bool.or_eq_true_iff.mp hp with h1 | h1
+      · exact Or.inl h1
+      · exact Or.inr (Or.inl h1)
+    | false =>
+      rw [hp] at hf
+      exact lossFields_Summed f hf
+  exact ⟨spec_conserves h hf, spec_cellSums h hf⟩
+
 /-! ### 8. non-vacuity -/
 
 def exT : List Cell :=
@@ -514,6 +772,150 @@ example :
             values := [("paid_loss", .int 15), ("earned_premium", .flt 100), ("reported_loss", .int 7)],
             md := { country := some "US", details := [("state", .str "NY")] } } ])
      | .error _ => false) = true := by
+  decide +kernel
+
+
+/-! ### 9. more non-vacuity: `summarize_premium = False`, ratio fields, each refusal (audit finding 6)
+
+`returns r out = true ↔ r = .ok out`, `refuses r e = true ↔ r = .error e`, `succeeds r = true ↔ ∃ out, r = .ok out`
+(`returns_iff`, `refuses_iff`, `succeeds_iff` in `Lemmas/SummarizeMore.lean`); all by kernel evaluation of the model. -/
+
+/-- two loss layers sharing one premium -/
+def exLayersT : List Cell :=
+  [ wCell [("paid_loss", .int 10), ("earned_premium", .flt 100)] { lossDetails := [("layer", .str "A")] },
+    wCell [("paid_loss", .int 5), ("earned_premium", .flt 100)] { lossDetails := [("layer", .str "B")] } ]
+
+/-- `no_premium_sum` is not vacuous: a cumulative two-layer triangle summarized with `summarize_premium = False`
+keeps the premium 100 (losses summed to 15); with `True` the premium is doubled -/
+theorem no_premium_sum_example :
+    smIsIncremental exLayersT = false ∧
+    returns (summarize Transc.id [] exLayersT false)
+      [ wCell [("paid_loss", .int 15), ("earned_premium", .flt 100)] {} ] = true ∧
+    returns (summarize Transc.id [] exLayersT true)
+      [ wCell [("paid_loss", .int 15), ("earned_premium", .flt 200)] {} ] = true := by
+  decide +kernel
+
+def exRatio2T : List Cell :=
+  [ wCell [("reported_loss", .int 100), ("bf_weight", .flt (1/2)), ("log_industry_lr", .flt (1/2)),
+           ("earned_premium", .int 100)] { details := [("s", .str "A")] },
+    wCell [("reported_loss", .int 300), ("bf_weight", .flt (1/4)), ("log_industry_lr", .flt (1/4)),
+           ("earned_premium", .int 300)] { details := [("s", .str "B")] } ]
+
+/-- `summarize_ratio_spec` and `summarize_wavglog_spec` are not vacuous: (½·100 + ¼·300)/400 = 5/16 (the second
+with `exp = log = id`) -/
+theorem ratio_example :
+    returns (summarize Transc.id [] exRatio2T true)
+      [ wCell [("reported_loss", .int 400), ("bf_weight", .flt (5/16)), ("log_industry_lr", .flt (5/16)),
+               ("earned_premium", .int 400)] {} ] = true := by
+  decide +kernel
+
+/-- each refusal happens, with its class; and the same triangle is summarized once the field has a rule -/
+theorem refusal_examples :
+    refuses (summarize Transc.id []
+      [ wCell [("paid_loss", .int 1)] { currency := some "USD" },
+        wCell [("paid_loss", .int 2)] { currency := some "EUR" } ] true) .triangleError = true ∧
+    refuses (summarize Transc.id []
+      [ wCell [("paid_loss", .int 1)] { riskBasis := some "Accident" },
+        wCell [("paid_loss", .int 2)] { riskBasis := some "Policy" } ] true) .triangleError = true ∧
+    refuses (summarize Transc.id []
+      [ wCell [("paid_loss", .int 1)] {}, wCell [("mystery", .int 2)] { country := some "US" } ] true)
+      .triangleError = true ∧
+    returns (summarize Transc.id [("mystery", "sum", ["mystery"])]
+      [ wCell [("paid_loss", .int 1)] {}, wCell [("mystery", .int 2)] { country := some "US" } ] true)
+      [ wCell [("paid_loss", .int 1), ("mystery", .int 2)] {} ] = true := by
+  decide +kernel
+
+/-- the unknown field sits in the SECOND coordinate group; the first group summarizes -/
+def exLaterT : List Cell :=
+  [ wCell [("paid_loss", .int 1)] { details := [("s", .str "A")] },
+    wCell [("paid_loss", .int 2)] { details := [("s", .str "B")] },
+    wCell2 [("paid_loss", .int 3), ("mystery", .int 9)] { details := [("s", .str "A")] } ]
+
+/-- the same, but the FIRST group holds int64 arrays of unequal shape (`ValueError`) -/
+def exClashT : List Cell :=
+  [ wCell [("paid_loss", .arr true [2] [1, 2])] { details := [("s", .str "A")] },
+    wCell [("paid_loss", .arr true [3] [1, 2, 3])] { details := [("s", .str "B")] },
+    wCell2 [("paid_loss", .int 3), ("mystery", .int 9)] { details := [("s", .str "A")] } ]
+
+/-- `summarize_error_unknown_field_class_any` / `_of_erased` are not vacuous (the triangle without `mystery` is
+summarized, the triangle with it raises `TriangleError` from the second group), and their hypothesis is needed:
+when an EARLIER group fails for another reason the class is that group's (`summarize_error_class_exact`) -/
+theorem unknown_field_later_group_examples :
+    refuses (summarize Transc.id [] exLaterT true) .triangleError = true ∧
+    succeeds (summarize Transc.id [] (exLaterT.map (eraseUnknown [])) true) = true ∧
+    refuses (summarize Transc.id [] exClashT true) .valueError = true ∧
+    refuses (summarize Transc.id [] (exClashT.map (eraseUnknown [])) true) .valueError = true := by
+  decide +kernel
+
+/-! ### 10. witnesses: three behaviours of the code next to the PLAIN reading of the property's words
+
+Each theorem evaluates the model on a one-coordinate triangle (the implementation returns the same: reproducers
+in the audit follow-up notes) and states the accepting Spec predicate next to the plain-reading predicate of
+`Spec/C09.lean` (the latter is NOT evaluated by the driver). -/
+
+/-- the first cell of the coordinate lacks `earned_premium`, the second holds 100 -/
+def exPremT : List Cell :=
+  [ wCell [("paid_loss", .int 10)] { lossDetails := [("layer", .str "A")] },
+    wCell [("paid_loss", .int 5), ("earned_premium", .flt 100)] { lossDetails := [("layer", .str "B")] } ]
+
+def exPremOut : List Cell := [ wCell [("paid_loss", .int 15), ("earned_premium", .flt 100)] {} ]
+
+/-- what the code returned before the repair of D28 -/
+def exPremOutD28 : List Cell := [ wCell [("paid_loss", .int 15), ("earned_premium", .none)] {} ]
+
+/-- **`premium_first_cell_lacks_field_none`** (name kept; D28 REPAIRED). "premium/exposure fields take one existing
+cell's value": the first loss layer lacks `earned_premium`, the second holds 100. With `summarize_premium = False` the
+repaired model (and code) returns the premium 100 — before the repair it returned `None` although no cell holds `None`.
+`Spec.nonLossOkStrict` (some cell HOLDS the value; the clause the driver evaluates) accepts 100 and rejects the old
+`None`; the weaker `Spec.nonLossOk` accepted both. -/
+theorem premium_first_cell_lacks_field_none :
+    returns (summarize Transc.id [] exPremT false) exPremOut = true ∧
+    returns (summarize Transc.id [] exPremT true) exPremOut = true ∧
+    (∀ c ∈ exPremT, c.values.get? "earned_premium" ≠ some .none) ∧
+    (∃ c ∈ exPremT, c.values.get? "earned_premium" = some (.flt 100)) ∧
+    nonLossOkStrict Generated.Summarize.nonLossMetrics exPremT exPremOut = true ∧
+    nonLossOk Generated.Summarize.nonLossMetrics exPremT exPremOutD28 = true ∧
+    nonLossOkStrict Generated.Summarize.nonLossMetrics exPremT exPremOutD28 = false := by
+  decide +kernel
+
+/-- one cell holds `bf_weight = ½` with weight 100, the other only the weight 300 -/
+def exRatioT : List Cell :=
+  [ wCell [("reported_loss", .int 100), ("bf_weight", .flt (1/2))] { details := [("s", .str "A")] },
+    wCell [("reported_loss", .int 300)] { details := [("s", .str "B")] } ]
+
+def exRatioOut (q : Rat) : List Cell := [ wCell [("reported_loss", .int 400), ("bf_weight", .flt q)] {} ]
+
+/-- **`ratio_denominator_counts_valueless_weights`.** "ratio-type fields are weighted averages": the model (and
+the code) returns ½·100/(100+300) = 1/8, below the only value there is; the average over the cells that HAVE a
+value is ½. `Spec.ratioOk` (denominator = weights of ALL cells, exact: tolerance 0) accepts 1/8 and rejects ½;
+the plain reading `Spec.ratioOkPlain` rejects 1/8 and accepts ½. -/
+theorem ratio_denominator_counts_valueless_weights :
+    returns (summarize Transc.id [] exRatioT true) (exRatioOut (1/8)) = true ∧
+    ratioOk 0 "reported_loss" ratioFields exRatioT (exRatioOut (1/8)) = true ∧
+    ratioOkPlain 0 "reported_loss" ratioFields exRatioT (exRatioOut (1/8)) = false ∧
+    ratioOkPlain 0 "reported_loss" ratioFields exRatioT (exRatioOut (1/2)) = true ∧
+    ratioOk 0 "reported_loss" ratioFields exRatioT (exRatioOut (1/2)) = false := by
+  decide +kernel
+
+/-- both slices hold the detail `k = None` and the loss detail `q = None` -/
+def exNoneT : List Cell :=
+  [ wCell [("paid_loss", .int 1)] { details := [("k", .none), ("s", .str "A")], lossDetails := [("q", .none)] },
+    wCell [("paid_loss", .int 2)] { details := [("k", .none), ("s", .str "B")], lossDetails := [("q", .none)] } ]
+
+/-- **`shared_none_detail_dropped`.** "keeps exactly those … detail entries that every input cell shares": the
+entries `k ↦ None` / `q ↦ None` are held by every cell with the same value and are dropped by the model (and the
+code). `Spec.detailsShared` accepts the empty result (`entryShared` demands a non-`None` value); the plain reading
+`Spec.detailsSharedPlain` rejects it and accepts `[k ↦ None]`. Even a ONE-slice triangle does not keep its own
+metadata (last conjunct). -/
+theorem shared_none_detail_dropped :
+    returns (summarize Transc.id [] exNoneT true) [ wCell [("paid_loss", .int 3)] {} ] = true ∧
+    (∀ c ∈ exNoneT, c.md.details.get? "k" = some .none ∧ c.md.lossDetails.get? "q" = some .none) ∧
+    detailsShared (exNoneT.map (·.md.details)) [] = true ∧
+    detailsSharedPlain (exNoneT.map (·.md.details)) [] = false ∧
+    detailsSharedPlain (exNoneT.map (·.md.details)) [("k", .none)] = true ∧
+    detailsSharedPlain (exNoneT.map (·.md.lossDetails)) [] = false ∧
+    returns (summarize Transc.id [] [wCell [("paid_loss", .int 1)] { details := [("k", .none)] }] true)
+      [ wCell [("paid_loss", .int 1)] {} ] = true := by
   decide +kernel
 
 end Bermuda.Properties.C09
